@@ -587,6 +587,13 @@ def fam_cluster(tier, base):
     q = tier == "quick"
     cfg = "MC_ClusterScen_quick.cfg" if q else "MC_ClusterScen_thorough.cfg"
     r = verif.model_check("MC_ClusterScen", cfg, timeout=3000, workers=1)
+    # design level: the deployment step machine (one step per external call, one failure, crash + recovery) satisfies
+    # C13's bounds, leaves nothing behind when it returns and is repaired by recovery; with the clean-up order as found
+    # (WAL events committed before the markers are deleted) TLC must exhibit the marker that survives recovery
+    rc = verif.model_check("MC_ClusterCreate", "MC_ClusterCreate_fixed.cfg", timeout=3000)
+    ra = verif.tlc("MC_ClusterCreate", "MC_ClusterCreate_asfound.cfg", timeout=3000)
+    if ra.error != "invariant:RecoveredClean":
+        raise Broken("ClusterCreate with the clean-up order as found: expected RecoveredClean to fail, got %s" % ra.error)
     inputs, trace = base + ".in.ndjson", base + ".trace.ndjson"
     every = 4 if q else 2
     sel = []
@@ -610,7 +617,8 @@ def fam_cluster(tier, base):
     lines = verif.read_lines(trace)
     cnt = lambda s: sum(1 for ln in lines if s in ln)
     runs, faults, crashes = cnt('"ev":"Run"'), cnt('"class":"injected"'), cnt('"ev":"Crash"')
-    return dict(trace=trace, viols=viols, states=r.distinct, transitions=r.generated, configs=[cfg, "Trace_Cluster.cfg"], window=80,
+    return dict(trace=trace, viols=viols, states=r.distinct + rc.distinct, transitions=r.generated + rc.generated,
+                configs=[cfg, "MC_ClusterCreate_fixed.cfg", "MC_ClusterCreate_asfound.cfg", "Trace_Cluster.cfg"], window=80,
                 traces={"*": runs, "C14": crashes}, samples={"*": [json.loads(x) for x in lines[:2]]},
                 nontrivial={"C10": runs, "C11": faults, "C12": cnt('"kind":"create","op":"op"'), "C13": cnt('"obs":['), "C14": crashes, "C20": cnt('"target":"lock"'), "C22": runs, "C30": cnt('"ev":"Call","kind":"lambda"')},
                 notes="%d TLC-enumerated scenarios (node layout x pre-deployed workloads x operation); each run fault-free and then with every single-fault placement (deployments: every %s single-fault / crash placement) among its external calls: %d runs, %d injected failures, %d crashes followed by recovery in a fresh core instance" % (len(sel), "%d-th" % every if every > 1 else "", runs, faults, crashes))
